@@ -9,24 +9,38 @@ P = {'id': 'C09',
               'min0_set_get_other',
               'min0_get_build',
               'min0_push_back_fast',
-              'min0_wide_refuted'],
+              'min0_wide_refuted',
+              'zip_get_build',
+              'sorted_uint_vec_get',
+              'sorted_uint_vec_get2',
+              'sorted_uint_vec_get_block',
+              'sorted_uint_vec_build_only_if'],
  'trusted': ['modelled (M+S): src/containers/uint_vec_min0.rs (compute_uintbits, compute_mem_size, get, set/set_uint_bits single-word path, new, resize, '
-             'push_back all three paths, build_from_usize) with the byte vector represented as (length, little-endian number); src/containers/zip_int_vec.rs '
-             'is modelled (definitions) but only oracle-checked',
-             'spec-only cells (direct oracle, no mechanism model): ZipIntVec, SortedUintVec + builder (3 presets, get/get2/get_block), IntVec<u8..u64,i8..i64> '
-             'x from_slice/from_slice_bulk/from_slice_bulk_simd, UintVector build_from/push',
-             'not modelled: the byte-wise slow path of set_uint_bits (reachable only for widths > 58, which is the recorded finding)'],
+             'push_back all three paths, build_from_usize) with the byte vector represented as (length, little-endian number); '
+             'src/containers/zip_int_vec.rs (new, get, set, build_from_usize/u32, push_back, resize) on top of it; '
+             'src/blob_store/sorted_uint_vec.rs (SortedUintVecConfig::validate, builder push/finish/compress_values/store_bits_static, '
+             'get/get2/get_unchecked/get_block_min_val/get_block_delta/extract_bits portable and BMI2 paths/get_block sequential and AVX2 paths) '
+             'with index and data each as (length, little-endian number)',
+             'spec-only cells (direct oracle, no mechanism model): IntVec<u8..u64,i8..i64> x from_slice/from_slice_bulk/from_slice_bulk_simd, '
+             'UintVector build_from/push, UintVecMin0::build_from_i32/u32',
+             'not modelled: the byte-wise slow path of set_uint_bits (reachable only for widths > 58, which is the recorded finding); '
+             'src/containers/specialized/int_vec/int_vec_simd.rs is not compiled into the crate (int_vec.rs declares an inline module of the same name), so nothing of it can run'],
  'assumptions': ['usize is 64 bits',
-                 'agreement of model and code (incl. raw memory contents after every history) is established on the generated histories only'],
- 'level_text': 'Machine-checked Coq theorems about a bit-exact Gallina model of UintVecMin0 (the packed store under ZipIntVec and the blob-store offset '
-               'tables): for every width <= 58, every index and every memory content, a field never straddles the 64-bit load window, in-range reads and '
-               'writes are defined and stay inside the allocation computed by compute_mem_size, a write reads back and leaves every other element unchanged, '
-               'bulk build returns every element for all sequences of any length whose range fits 58 bits, in-place push_back appends without disturbing '
-               'earlier elements; refutation witness for widths above 58. The model is tied to the code by replaying generated operation histories in Coq and '
-               'comparing every output and the raw memory image. The other containers (SortedUintVec, IntVec, UintVector, ZipIntVec) are decided by a '
-               'boundary-biased differential oracle only, labelled S-only.',
- 'level_note': 'Trusted: Coq kernel + vm_compute; hand-written model; harness generators and shadow-Vec oracle. Unsafe pointer reads are modelled as index '
-               'arithmetic with an explicit out-of-bounds outcome.',
- 'technique': 'Coq proof by bit extensionality (N.testbit) + finite sweep lifted by lemma + induction over build; model/implementation differential check on '
-              'operation histories by vm_compute; differential oracle for S-only cells',
- 'explanation': 'Unbounded theorems for UintVecMin0; differential oracle for the other containers.'}
+                 'agreement of model and code (incl. raw memory contents after every UintVecMin0 history; every get/get2/get_block result of SortedUintVec; size/bits/min_val/every get of ZipIntVec) is established on the generated cases only',
+                 'BMI2 PEXT with a contiguous mask and BEXTR are modelled by shift-and-mask; the AVX2 add in get_block by a wrapping add'],
+ 'level_text': 'Machine-checked Coq theorems about bit-exact Gallina models of three of the packed containers. UintVecMin0: for every width <= 58, every '
+               'index and every memory content, a field never straddles the 64-bit load window, in-range reads and writes are defined and stay inside the '
+               'allocation, a write reads back and leaves every other element unchanged, bulk build returns every element for all sequences whose range '
+               'fits 58 bits, in-place push_back appends without disturbing earlier elements; refutation witness for widths above 58. ZipIntVec: bulk build '
+               'returns every element for every sequence of u64 values whose range fits 58 bits (also at the top of the usize range), reads past the end '
+               'are refused. SortedUintVec: for every admissible configuration (block sizes 16..256, offset widths 8..32, sample widths 16..57 and 64, both '
+               'bit-extraction paths) and every sequence, the builder succeeds exactly when the input is sorted, every in-block delta fits offset_width and '
+               'every block minimum fits sample_width; then the length is preserved, get(i) returns element i, get2 is two gets, get_block returns the '
+               'block followed by zeros, and every index or block index past the end is refused. The models are tied to the code by replaying generated '
+               'cases in Coq and comparing every output. IntVec<T> (8 types x 3 constructors) and UintVector are decided by a boundary-biased differential '
+               'oracle plus an enumerated small universe only, labelled S-only.',
+ 'level_note': 'Trusted: Coq kernel + vm_compute; hand-written models; harness generators and shadow-Vec oracle. Unsafe pointer reads are modelled as index '
+               'arithmetic with an explicit out-of-bounds outcome; growing byte vectors as (length, number).',
+ 'technique': 'Coq proof by bit extensionality (N.testbit) + packed-field-array invariant through the builder loops + induction over build; '
+              'model/implementation differential check on generated cases by vm_compute; differential oracle for S-only cells',
+ 'explanation': 'Unbounded theorems for UintVecMin0, ZipIntVec and SortedUintVec; differential oracle for IntVec and UintVector.'}
